@@ -32,10 +32,11 @@ def run(R):
                 # the block counter stepping over every byte boundary of its words (a vectorised increment with the wrong lane width
                 # carries at 2^8 or 2^16 instead of 2^32), and over the word boundary itself
                 if wide:
-                    starts = [0, 1, 0xff, 0xffff, 0xffffff, 0xffffffff, 0xffffffff | (5 << 32), 0xfffffffe, 0xffffffffff, 0xffffffffffff, (1 << 56) - 1]
+                    starts = [0, 1, 0xff, 0xffff, 0xffffff, 0x7fffffff, 0xffffffff, 0xffffffff | (5 << 32), 0x7fffffff | (2 << 32), 0xfffffffe, 0xffffffffff, 0xffffffffffff,
+                              (1 << 56) - 1, (1 << 63) - 1]
                     starts += [R.rng.getrandbits(64) for _ in range(40 if thorough else 1)]
                 else:
-                    starts = [0, 1, 0xff, 0xffff, 0xffffff, 0xfffffffe, 0xffffffff] if variant == "ietf" else [0, 1, 0xff, 0xffff, 0xffffff, 0x7fffffff]
+                    starts = [0, 1, 0xff, 0xffff, 0xffffff, 0x7fffffff, 0xfffffffe, 0xffffffff] if variant == "ietf" else [0, 1, 0xff, 0xffff, 0xffffff, 0x7ffffffe]
                     # XChaCha: 32-bit counter as implemented and as in draft-irtf-cfrg-xchacha; not exercised across 2^32 (DESIGN.md C03)
                     starts += [R.rng.getrandbits(32) & (0xffffffff if variant == "ietf" else 0x7fffffff) for _ in range(40 if thorough else 1)]
                 for s in starts:
